@@ -100,10 +100,19 @@ def graph_snapshot(ev):
 
 
 # ----------------------------------------------------------------------------- rule ops
+def _seq_form(a):
+    """a batch of names is a Sequence[str]: mostly passed as a list, now and then as a tuple or as a one-shot iterator
+    (the choice depends on the names only, so that a case is reproducible)"""
+    if not isinstance(a, list):
+        return a
+    k = sum(len(x) for x in a) % 7
+    return tuple(a) if k == 1 else iter(list(a)) if k == 2 else a
+
+
 RULE_OPS = {
     "mt": lambda r, a: r.modules_that(),
-    "named": lambda r, a: r.are_named(a),
-    "sub": lambda r, a: r.are_sub_modules_of(a),
+    "named": lambda r, a: r.are_named(_seq_form(a)),
+    "sub": lambda r, a: r.are_sub_modules_of(_seq_form(a)),
     "match": lambda r, a: r.have_name_matching(a),
     "contain": lambda r, a: r.have_name_containing(a),
     "should": lambda r, a: r.should(),
